@@ -22,6 +22,9 @@
 (*                      check of the default provider still comes after    *)
 (*                      the namespace was added (must FAIL in the state    *)
 (*                      "instance exists, namespace does not")            *)
+(*   DeleteClassUndo = FALSE: DeleteClass does not restore the instances   *)
+(*                      deleted before the one its provider rejects (must  *)
+(*                      FAIL; this is the code today, see known findings)  *)
 (*   RollbackScope = "target-namespace": the batch snapshot covers only    *)
 (*                      the namespace the call was made for (must FAIL for *)
 (*                      productions that write outside it)                 *)
@@ -40,6 +43,14 @@ CONSTANTS Rollback, NsProviderOrder, MaxBatch,
           SchemaListRollback,\* TRUE: one snapshot around the loop over the
                              \* schema pragma files; FALSE: only each file's
                              \* own compile is rolled back
+          DeleteClassUndo,   \* DeleteClass deletes the instances of the class
+                             \* through their providers, one by one; a
+                             \* provider may reject one of them (namespace
+                             \* provider: namespace not empty / the Interop
+                             \* namespace).  TRUE: the instances deleted
+                             \* before the rejected one are restored (the
+                             \* repair); FALSE: they stay deleted (the code
+                             \* today - known finding)
           RollbackScope      \* "repository": the snapshot of a batch is the
                              \* complete repository (the code: deepcopy of
                              \* conn.cimrepository); "target-namespace": only
@@ -97,6 +108,12 @@ Table ==
                      Ck("resolve"), Ck("haschildren"), Ck("hasinstances"),
                      Wr(1)>>,
    DeleteClass |-> <<Ck("ns"), Ck("notfound"), Wr(3), Wr(2), Wr(1)>>,
+   \* the instances of the class are served by a provider that can reject
+   \* the deletion of each of them (items 3, 4 = a CIM_Namespace instance
+   \* and its namespace; 2 = a second instance; 1 = the class)
+   DeleteClassProvider |-> <<Ck("ns"), Ck("notfound"), Ck("inst1-rejected"),
+                             Wr(3), Wr(4), Ck("inst2-rejected"), Wr(2),
+                             Wr(1)>>,
    SetQualifier |-> <<Ck("ns"), Ck("invalid"), Wr(4)>>,
    DeleteQualifier |-> <<Ck("ns"), Ck("notfound"), Wr(4)>>,
    CreateInstance |-> <<Ck("ns"), Ck("class"), Ck("props"), Ck("key"),
@@ -157,6 +174,7 @@ Undo(op, x, pc) ==
          \* each compile_mof_string restores what IT wrote (nothing yet at a
          \* check); only the outer snapshot undoes the earlier files
          IF Rollback /\ (SchemaListRollback \/ pc <= 3) THEN Scope ELSE {}
+    [] op = "DeleteClassProvider" -> IF DeleteClassUndo THEN Items ELSE {}
     [] op = "CreateNamespaceInstance" ->
          \* except Exception: if namespace_added: remove_namespace(...)
          IF NsProviderOrder = "fixed" THEN {4} ELSE {}
